@@ -225,8 +225,12 @@ def run(res, tier, seed):
         cases.append(("native", "concurrent", xsl, "large.xml") + ((8, 3) if quick else (16, 6)))
     exe = vlib.build_harness("c07", libs=LIBS)
     workers = max(2, min(8, vlib.NCPU // (2 if quick else 4)))
+    lib = os.path.join(os.path.dirname(exe), "src", "xalanc", "libxalan-c.so")
+    stamp = os.stat(os.path.realpath(lib)).st_mtime_ns
     with ThreadPoolExecutor(max_workers=workers) as ex:
         results = list(ex.map(lambda c: run_case(exe, d, c), cases))
+    if os.stat(os.path.realpath(lib)).st_mtime_ns != stamp:
+        raise vlib.Infra("libxalan-c.so was rebuilt by somebody else while the cases were running: no verdict, run again")
     res.cov["evaluations"] = len(cases)
     t2 = time.time()
 
